@@ -41,6 +41,7 @@ static C01_WEIGHTS: &[(u16, u32)] = &[
     (m::INSERT_UNIQUE_UNCHECKED, 2),
     (m::REMOVE_NTH, 4),
     (m::GET_ABSENT, 2),
+    (m::REHASH_SETUP, 2),
 ];
 
 fn c01_strategy(tier: Tier) -> BoxedStrategy<Case> {
@@ -77,6 +78,174 @@ pub static C01: PropDef = PropDef {
     prop_labels: &[(L_PROP_A, "entry_at_growth_left_0"), (L_PROP_B, "probe_window_with_tombstone")],
 };
 
+// ---------------------------------------------------------------------------------------------
+// C04: fault enumeration
+
+static C04_WEIGHTS: &[(u16, u32)] = &[
+    (m::INSERT, 16),
+    (m::TRY_INSERT, 3),
+    (m::GET, 2),
+    (m::GET_MUT, 2),
+    (m::REMOVE, 10),
+    (m::ENTRY, 8),
+    (m::ENTRY_REF, 6),
+    (m::EXTEND, 5),
+    (m::REBUILD, 2),
+    (m::CLEAR, 3),
+    (m::RESERVE, 4),
+    (m::SHRINK_TO_FIT, 3),
+    (m::SHRINK_TO, 3),
+    (m::RETAIN, 4),
+    (m::FILL_TO_CAPACITY, 4),
+    (m::FILL_EXACT, 3),
+    (m::REMOVE_RUN, 8),
+    (m::REMOVE_ALL_BUT, 3),
+    (m::CHURN, 3),
+    (m::INSERT_UNIQUE_UNCHECKED, 2),
+    (m::REMOVE_NTH, 3),
+    (m::DRAIN, 3),
+    (m::EXTRACT_IF, 4),
+    (m::CLONE_TO_OTHER, 4),
+    (m::CLONE_FROM_OTHER, 5),
+    (m::SWAP, 2),
+    (m::INTO_ITER, 3),
+    (m::DROP_RECREATE, 2),
+    (m::RAW_ENTRY, 3),
+    (m::RUSTC_ENTRY, 3),
+    (m::ITER, 1),
+    (m::TRY_RESERVE, 2),
+    (m::REHASH_SETUP, 6),
+];
+
+fn c04_strategy(tier: Tier) -> BoxedStrategy<Case> {
+    use proptest::prelude::*;
+    (
+        map_case_strategy(MapGen {
+            prop: 4,
+            weights: C04_WEIGHTS,
+            max_ops: if tier == Tier::Quick { 40 } else { 80 },
+            generic_pct: 15,
+            plain_pct: 40,
+        }),
+        0u64..65536,
+    )
+        .prop_map(|(mut c, frac)| {
+            if !c.ops.is_empty() {
+                // bias the fault towards the later operations (richer states)
+                let n = c.ops.len();
+                let idx = hbv::case::frac_index(frac, n);
+                let idx = (idx + n) / 2;
+                c.set("fault_step", idx.min(n - 1) as u64);
+            }
+            c
+        })
+        .boxed()
+}
+
+fn eval_c04(case: &Case) -> Outcome {
+    // one fault-free traced run: per step, transition labels and callback counts per class
+    let mut dry_case = case.clone();
+    dry_case.header.remove("fault_step");
+    dry_case.set("trace", 1);
+    let mut total = hbv::run_case(&dry_case);
+    if total.violation.is_some() || case.ops.is_empty() {
+        total.repro = Some(dry_case);
+        return total;
+    }
+    let per_step = std::mem::take(&mut total.per_step);
+    // fault steps: the generated one, plus steps that rehashed in place / resized (up to 4 in all)
+    let mut steps: Vec<usize> = Vec::new();
+    if let Some(s) = case.header.get("fault_step") {
+        steps.push((*s as usize).min(case.ops.len() - 1));
+    }
+    for want in [L_REHASH_IN_PLACE, L_REHASH_IN_PLACE, L_RESIZE_UP, L_RESIZE_DOWN] {
+        if let Some(i) = per_step.iter().enumerate().rev().position(|(i, (l, _))| l & want != 0 && !steps.contains(&i)) {
+            let i = per_step.len() - 1 - i;
+            if !steps.contains(&i) && steps.len() < 4 {
+                steps.push(i);
+            }
+        }
+    }
+    let mut runs = 0u64;
+    for step in steps {
+        let Some((_, counts)) = per_step.get(step) else { continue };
+        for class in 0..hbv::world::NCLASS {
+            let n = counts[class];
+            if n == 0 {
+                continue;
+            }
+            // every k up to 64, then a geometric sample, always the last one
+            let mut ks: Vec<u64> = (1..=n.min(64)).collect();
+            let mut k = 64u64;
+            while k < n {
+                k = k + k / 4 + 1;
+                if k < n {
+                    ks.push(k);
+                }
+            }
+            if n > 64 {
+                ks.push(n);
+            }
+            for k in ks {
+                let mut c = case.clone();
+                c.set("fault_step", step as u64);
+                c.set("fault_class", class as u64);
+                c.set("fault_k", k);
+                let out = hbv::run_case(&c);
+                runs += 1;
+                total.labels |= out.labels;
+                for (name, v) in &out.counters {
+                    if *name == "faults_fired" {
+                        total.count("faults_fired", *v);
+                    }
+                }
+                if let Some(v) = out.violation {
+                    total.violation = Some(hbv::world::Violation {
+                        detail: format!("[fault at step {} class {} k {}] {}", step, hbv::world::CLASS_NAMES[class], k, v.detail),
+                        ..v
+                    });
+                    total.repro = Some(c);
+                    total.count("fault_runs", runs);
+                    return total;
+                }
+            }
+        }
+    }
+    total.count("fault_runs", runs);
+    total
+}
+
+fn c04_nontrivial(_c: &Case, o: &Outcome) -> bool {
+    o.counters.iter().any(|c| c.0 == "faults_fired" && c.1 > 0) && o.labels & (L_PROP_D | L_PROP_E | L_PROP_F) != 0
+}
+
+pub static C04: PropDef = PropDef {
+    id: "C04",
+    rule: "case = (hash plan, element flavour, prefix history, target operation, suffix); the evaluation first runs it \
+           fault-free counting invocations per callback class during the target operation, then re-runs it once for EVERY \
+           (class, k) with k up to that count (all k <= 64, geometric sample above) with the k-th invocation panicking; \
+           non-trivial = at least one injected panic unwound out of the operation AND it fired during a growth into a new \
+           allocation, under in-place-rehash conditions, or in a Clone/Drop/closure/Into/iterator callback",
+    level: "fault_enumeration",
+    cases_quick: 1600,
+    cases_thorough: 30_000,
+    strategy: c04_strategy,
+    eval: eval_c04,
+    nontrivial: c04_nontrivial,
+    specs: hbv::specs::MAP_OPS,
+    assumptions: &[
+        "fault points are exhaustive per generated (state, operation), not over all states",
+        "S::clone / A::clone are not injected (DESIGN 11.3)",
+        "a second panic while unwinding is outside the property and never injected",
+    ],
+    prop_labels: &[
+        (L_PROP_C, "fault_unwound"),
+        (L_PROP_D, "fault_during_growth_into_new_block"),
+        (L_PROP_E, "hash_fault_under_rehash_in_place_conditions"),
+        (L_PROP_F, "fault_in_clone_drop_closure_into_or_iterator"),
+    ],
+};
+
 pub fn all() -> Vec<&'static PropDef> {
-    vec![&C01]
+    vec![&C01, &C04]
 }
